@@ -5,8 +5,9 @@ import Sympler.ExprCLemmas
 
 `toCE_good`: for every tree whose library functions come from the generated table (`Tree.wf`), every
 component `e` of `toCE env t` is a canonical primary term (`Prim e`, hence `parseCL e.render = e.abs`)
-and its C value agrees with the corresponding component of `denote env t` (`Agree`): it is that value,
-or the C text performs a truncating integer division.
+of C type `double` whose C value is the corresponding component of `denote env t` (`Agree`).
+`toCE_dbl` (no interpreter involved): every component of every emitted result is a canonical primary
+term of type `double` in which no `int / int` division occurs.
 
 Core Lean only.
 -/
@@ -14,9 +15,11 @@ namespace Sympler.Expr
 
 /-! ## `Agree`: the value of a C term -/
 
-/-- the C term evaluates to `x` — unless it performs a truncating `int / int` division -/
+/-- the C term evaluates to `x` and has the C type `double`.  (Before commit ad91e0f of /repo the emitter
+produced `int`-typed terms as well and `Agree` had the alternative "or the term performs a truncating
+`int / int` division"; see `ExprHistory.lean`.) -/
 def Agree (env : Env) (e : CE) (x : Rat) : Prop :=
-  evalCX env e.abs = .ok x ∨ evalCX env e.abs = .error .intTrunc
+  evalCX env e.abs = .ok x ∧ e.abs.isInt = false
 
 theorem abs_par (x : CE) : (CE.par x).abs = x.abs := rfl
 theorem abs_bin (op : Char) (sp : Bool) (a b : CE) :
@@ -42,108 +45,87 @@ theorem evalCX_bin (env : Env) (op : COp) (a b : CX) :
         else if a.isInt && b.isInt && (x / y).den != 1 then .error .intTrunc
         else pure (x / y)) := rfl
 
+theorem isInt_bin (op : COp) (a b : CX) : (CX.bin op a b).isInt = (a.isInt && b.isInt) := rfl
+
 theorem Agree.par {env e x} (h : Agree env e x) : Agree env (.par e) x := h
 
-theorem Agree.castd {env e x} (sp : Bool) (h : Agree env e x) : Agree env (.castd sp e) x := h
+/-- a cast makes a `double` of anything -/
+theorem Agree.castd {env e x} (sp : Bool) (h : evalCX env e.abs = .ok x) : Agree env (.castd sp e) x :=
+  ⟨h, rfl⟩
 
 theorem Agree.neg {env e x} (h : Agree env e x) : Agree env (.neg e) (-x) := by
   unfold Agree at *
   rw [abs_neg]
-  rcases h with h | h
-  · left; simp [evalCX, h, bind, Except.bind, pure, Except.pure]
-  · right; simp [evalCX, h, bind, Except.bind]
+  exact ⟨by simp [evalCX, h.1, bind, Except.bind, pure, Except.pure], h.2⟩
 
 theorem Agree.add {env a b x y} (sp : Bool) (ha : Agree env a x) (hb : Agree env b y) :
     Agree env (.bin '+' sp a b) (x + y) := by
   unfold Agree at *
-  rw [abs_bin, evalCX_bin]
-  rcases ha with ha | ha
-  · rcases hb with hb | hb
-    · left; simp [ha, hb, bind, Except.bind, copOf, pure, Except.pure]
-    · right; simp [ha, hb, bind, Except.bind]
-  · right; simp [ha, bind, Except.bind]
+  rw [abs_bin, evalCX_bin, isInt_bin]
+  exact ⟨by simp [ha.1, hb.1, bind, Except.bind, copOf, pure, Except.pure], by simp [ha.2]⟩
 
 theorem Agree.sub {env a b x y} (sp : Bool) (ha : Agree env a x) (hb : Agree env b y) :
     Agree env (.bin '-' sp a b) (x - y) := by
   unfold Agree at *
-  rw [abs_bin, evalCX_bin]
-  rcases ha with ha | ha
-  · rcases hb with hb | hb
-    · left; simp [ha, hb, bind, Except.bind, copOf, pure, Except.pure]
-    · right; simp [ha, hb, bind, Except.bind]
-  · right; simp [ha, bind, Except.bind]
+  rw [abs_bin, evalCX_bin, isInt_bin]
+  exact ⟨by simp [ha.1, hb.1, bind, Except.bind, copOf, pure, Except.pure], by simp [ha.2]⟩
 
 theorem Agree.mul {env a b x y} (sp : Bool) (ha : Agree env a x) (hb : Agree env b y) :
     Agree env (.bin '*' sp a b) (x * y) := by
   unfold Agree at *
-  rw [abs_bin, evalCX_bin]
-  rcases ha with ha | ha
-  · rcases hb with hb | hb
-    · left; simp [ha, hb, bind, Except.bind, copOf, pure, Except.pure]
-    · right; simp [ha, hb, bind, Except.bind]
-  · right; simp [ha, bind, Except.bind]
+  rw [abs_bin, evalCX_bin, isInt_bin]
+  exact ⟨by simp [ha.1, hb.1, bind, Except.bind, copOf, pure, Except.pure], by simp [ha.2]⟩
 
+/-- the quotient of two `double` terms is the real quotient: no truncation, whatever the values -/
 theorem Agree.div {env a b x y} (sp : Bool) (ha : Agree env a x) (hb : Agree env b y) (hy : y ≠ 0) :
     Agree env (.bin '/' sp a b) (x / y) := by
   unfold Agree at *
-  rw [abs_bin, evalCX_bin]
-  rcases ha with ha | ha
-  · rcases hb with hb | hb
-    · by_cases hi : (a.abs.isInt && b.abs.isInt && (x / y).den != 1) = true
-      · right; simp [ha, hb, bind, Except.bind, copOf, hy, hi, pure, Except.pure]
-      · left; simp [ha, hb, bind, Except.bind, copOf, hy, hi, pure, Except.pure]
-    · right; simp [ha, hb, bind, Except.bind]
-  · right; simp [ha, bind, Except.bind]
+  rw [abs_bin, evalCX_bin, isInt_bin]
+  exact ⟨by simp [ha.1, hb.1, ha.2, bind, Except.bind, copOf, hy, pure, Except.pure], by simp [ha.2]⟩
 
-theorem Agree.gt0 {env c a b x y z} (hc : Agree env c x) (ha : x > 0 → Agree env a y)
-    (hb : ¬ x > 0 → Agree env b z) : Agree env (.gt0 c a b) (if x > 0 then y else z) := by
+theorem Agree.gt0 {env c a b x y z} (hc : Agree env c x) (ha : Agree env a y) (hb : Agree env b z) :
+    Agree env (.gt0 c a b) (if x > 0 then y else z) := by
   unfold Agree at *
   rw [abs_gt0]
-  rcases hc with hc | hc
-  · by_cases hx : x > 0
-    · rcases ha hx with ha | ha
-      · left; simp [evalCX, hc, ha, hx, bind, Except.bind]
-      · right; simp [evalCX, hc, ha, hx, bind, Except.bind]
-    · rcases hb hx with hb | hb
-      · left; simp [evalCX, hc, hb, hx, bind, Except.bind]
-      · right; simp [evalCX, hc, hb, hx, bind, Except.bind]
-  · right; simp [evalCX, hc, bind, Except.bind]
+  refine ⟨?_, by simp [CX.isInt, ha.2]⟩
+  by_cases hx : x > 0
+  · simp [evalCX, hc.1, ha.1, hx, bind, Except.bind]
+  · simp [evalCX, hc.1, hb.1, hx, bind, Except.bind]
 
 theorem Agree.call {env a x y} (f : String) (ha : Agree env a x) (hf : libFn env f x = .ok y) :
     Agree env (.call f a) y := by
   unfold Agree at *
   rw [abs_call]
-  rcases ha with ha | ha
-  · left; simp [evalCX, ha, hf, bind, Except.bind]
-  · right; simp [evalCX, ha, bind, Except.bind]
+  exact ⟨by simp [evalCX, ha.1, hf, bind, Except.bind], rfl⟩
 
 theorem Agree.pow {env a b x y z} (ha : Agree env a x) (hb : Agree env b y)
     (hp : powRat env x y = .ok z) : Agree env (.pow a b) z := by
   unfold Agree at *
   rw [abs_pow]
-  rcases ha with ha | ha
-  · rcases hb with hb | hb
-    · left; simp [evalCX, ha, hb, hp, bind, Except.bind]
-    · right; simp [evalCX, ha, hb, bind, Except.bind]
-  · right; simp [evalCX, ha, bind, Except.bind]
+  exact ⟨by simp [evalCX, ha.1, hb.1, hp, bind, Except.bind], rfl⟩
 
-theorem Agree.lit {env} {t : List Char} {r : Rat} (h : decimalVal (t.dropWhile isSpace) = some r) :
-    Agree env (.lit t) r := by
-  left
+/-- value of a literal, of whatever C type -/
+theorem evalCX_lit {env : Env} {t : List Char} {r : Rat} (h : decimalVal (t.dropWhile isSpace) = some r) :
+    evalCX env (CE.lit t).abs = .ok r := by
   rw [abs_lit]
   simp [litAbs, h, evalCX]
 
+/-- a literal with a character that is no digit (a `.`) is a `double` -/
+theorem Agree.lit {env} {t : List Char} {r : Rat} (h : decimalVal (t.dropWhile isSpace) = some r)
+    (hd : (t.dropWhile isSpace).all Char.isDigit = false) : Agree env (.lit t) r :=
+  ⟨evalCX_lit h, by rw [abs_lit]; simpa [litAbs, CX.isInt] using hd⟩
+
 theorem Agree.load {env : Env} (k : Nat) : Agree env (.load (8 * k)) (env.mem k) := by
-  left
+  refine ⟨?_, rfl⟩
   rw [abs_load]
   simp [evalCX]
 
-theorem Agree.mpi {env : Env} {r} (h : env.piv = .ok r) : Agree env .mpi r := by
-  left; exact h
+theorem evalCX_mpi {env : Env} {r} (h : env.piv = .ok r) : evalCX env CE.mpi.abs = .ok r := h
 
-theorem agree_lit0 (env : Env) : Agree env (.lit ['0']) 0 := Agree.lit (by decide +kernel)
-theorem agree_lit1 (env : Env) : Agree env (.lit ['1']) 1 := Agree.lit (by decide +kernel)
-theorem agree_lit10 (env : Env) : Agree env (.lit ['1', '.', '0']) 1 := Agree.lit (by decide +kernel)
+theorem agree_lit00 (env : Env) : Agree env (.lit ['0', '.', '0']) 0 :=
+  Agree.lit (by decide +kernel) (by decide)
+theorem agree_lit10 (env : Env) : Agree env (.lit ['1', '.', '0']) 1 :=
+  Agree.lit (by decide +kernel) (by decide)
 
 /-! ## Canonical terms built by the emitter -/
 
@@ -259,14 +241,13 @@ theorem prim_neg {x : CE} (h : Can 3 x) : Prim (.par (.neg x)) :=
 theorem can_lit {t : List Char} (hok : (CE.lit t).ok = true) (hd : goodHead t = true) : Can 4 (.lit t) :=
   ⟨hok, by simp [CE.lvl], hd⟩
 
-theorem lit1_ok : (CE.lit ['1']).ok = true := by decide +kernel
+theorem lit00_ok : (CE.lit ['0', '.', '0']).ok = true := by decide +kernel
 theorem lit10_ok : (CE.lit ['1', '.', '0']).ok = true := by decide +kernel
 
-theorem can_lit0 : Can 4 (.lit ['0']) := can_lit lit0_ok (by decide)
-theorem can_lit1 : Can 4 (.lit ['1']) := can_lit lit1_ok (by decide)
+theorem can_lit00 : Can 4 (.lit ['0', '.', '0']) := can_lit lit00_ok (by decide)
 theorem can_lit10 : Can 4 (.lit ['1', '.', '0']) := can_lit lit10_ok (by decide)
 
-theorem prim_zeroC : Prim zeroC := can_par_can can_lit0
+theorem prim_zeroC : Prim zeroC := can_par_can can_lit00
 
 theorem ok_of_gt0 {c a b : CE} (hc : Can 1 c) (ha : a.ok = true) (hb : b.ok = true) :
     (CE.gt0 c a b).ok = true := by
@@ -310,8 +291,8 @@ theorem Can.of4 {e : CE} {L : Nat} (h : Can 4 e) (hl : L ≤ 4 := by decide) : C
 /-- structural proof of `Agree` goals from `Agree` hypotheses -/
 macro "agree_tac" : tactic => `(tactic| repeat' (first
   | assumption
-  | exact agree_lit0 _
-  | exact agree_lit1 _
+  | exact agree_lit00 _
+  | exact agree_lit10 _
   | apply Agree.par
   | apply Agree.add
   | apply Agree.sub
@@ -322,8 +303,8 @@ macro "agree_tac" : tactic => `(tactic| repeat' (first
 macro "can_tac" : tactic => `(tactic| repeat' (first
   | assumption
   | exact prim_zeroC
-  | exact can_lit0
-  | exact can_lit1
+  | exact can_lit00
+  | exact can_lit10
   | (apply Can.of4 (hl := by decide); assumption)
   | refine can_par_le (by decide) ?_
   | refine can_bin_add_le (by decide) _ (Or.inl rfl) ?_ ?_
@@ -357,7 +338,7 @@ theorem g_neg {env a x} (ha : G env a x) : G env (.par (.neg a)) (-x) :=
 theorem g_par {env a x} (ha : G env a x) : G env (.par a) x :=
   ⟨can_par_can ha.1, Agree.par ha.2⟩
 
-theorem g_zero (env : Env) : G env zeroC 0 := ⟨prim_zeroC, Agree.par (agree_lit0 env)⟩
+theorem g_zero (env : Env) : G env zeroC 0 := ⟨prim_zeroC, Agree.par (agree_lit00 env)⟩
 
 theorem g_sum3 {env a0 a1 a2 b0 b1 b2 x0 x1 x2 y0 y1 y2}
     (h0 : G env a0 x0) (h1 : G env a1 x1) (h2 : G env a2 x2)
@@ -671,14 +652,14 @@ theorem g_sq {env a x} (ha : G env a x) :
   exact ⟨by can_tac, by agree_tac⟩
 
 theorem g_step {env a x} (ha : G env a x) :
-    G env (.par (.gt0 (.par a) (.lit ['1']) (.lit ['0']))) (stepRat x) := by
-  refine ⟨prim_gt0 ((can_par_can ha.1).of4) lit1_ok lit0_ok, Agree.par ?_⟩
-  exact Agree.gt0 (Agree.par ha.2) (fun _ => agree_lit1 env) (fun _ => agree_lit0 env)
+    G env (.par (.gt0 (.par a) (.lit ['1', '.', '0']) (.lit ['0', '.', '0']))) (stepRat x) := by
+  refine ⟨prim_gt0 ((can_par_can ha.1).of4) lit10_ok lit00_ok, Agree.par ?_⟩
+  exact Agree.gt0 (Agree.par ha.2) (agree_lit10 env) (agree_lit00 env)
 
 theorem g_stpVal {env a x} (ha : G env a x) :
-    G env (.par (.gt0 (.par a) (.par a) (.lit ['0']))) (stpValRat x) := by
-  refine ⟨prim_gt0 ((can_par_can ha.1).of4) (can_par_can ha.1).ok lit0_ok, Agree.par ?_⟩
-  exact Agree.gt0 (Agree.par ha.2) (fun _ => Agree.par ha.2) (fun _ => agree_lit0 env)
+    G env (.par (.gt0 (.par a) (.par a) (.lit ['0', '.', '0']))) (stpValRat x) := by
+  refine ⟨prim_gt0 ((can_par_can ha.1).of4) (can_par_can ha.1).ok lit00_ok, Agree.par ?_⟩
+  exact Agree.gt0 (Agree.par ha.2) (Agree.par ha.2) (agree_lit00 env)
 
 theorem g_trace {env a b c x y z} (ha : G env a x) (hb : G env b y) (hc : G env c z) :
     G env (.par (chain '+' true a [b, c])) (x + y + z) := by
@@ -963,7 +944,11 @@ theorem g_const {env : Env} {t : String} {r : Rat} (h : numVal t = .ok r) : G en
       | cons c tl =>
         have hcd : c.isDigit = true := isDigit_toDigits r.num.toNat c (by rw [hx]; exact List.mem_cons_self ..)
         exact digit_goodHead hcd
-    exact ⟨can_par_can (can_lit hok hgh), Agree.par (Agree.lit (by rw [hdw]; exact hval))⟩
+    have hnd : (Nat.toDigits 10 r.num.toNat ++ ['.', '0']).all Char.isDigit = false := by
+      rw [List.all_append]
+      simp [show ('.' : Char).isDigit = false by decide]
+    exact ⟨can_par_can (can_lit hok hgh),
+      Agree.par (Agree.lit (by rw [hdw]; exact hval) (by rw [hdw]; exact hnd))⟩
   next =>
     have hok : (CE.lit t.toList).ok = true := by
       show (decimalVal (t.toList.dropWhile isSpace)).isSome = true
@@ -990,14 +975,14 @@ theorem g_const {env : Env} {t : String} {r : Rat} (h : numVal t = .ok r) : G en
     have p2 : (CE.castd true (.par (.lit t.toList))).ok = true := by
       rw [ok_castd]; simp [p1.ok, CE.lvl]
     refine ⟨can_par p2 (by rw [render_castd]; simp), ?_⟩
-    exact Agree.par (Agree.castd true (Agree.par (Agree.lit hd)))
+    exact Agree.par (Agree.castd true (evalCX_lit hd))
 
 theorem g_pi {env : Env} {r : Rat} (h : env.piv = .ok r) :
     G env (.par (.castd true (.par .mpi))) r := by
   have p1 : Prim (.par .mpi) := can_par rfl (by decide)
   have p2 : (CE.castd true (.par .mpi)).ok = true := by rw [ok_castd]; simp [p1.ok, CE.lvl]
   exact ⟨can_par p2 (by rw [render_castd]; simp),
-    Agree.par (Agree.castd true (Agree.par (Agree.mpi h)))⟩
+    Agree.par (Agree.castd true (evalCX_mpi h))⟩
 
 theorem g_load (env : Env) (slot i : Nat) : G env (loadC slot i) (env.mem (slot + i)) :=
   ⟨prim_load _, Agree.par (Agree.load _)⟩
@@ -1020,11 +1005,7 @@ theorem sym_good {env : Env} {n : String} {c : Val CE} {v : Val Rat}
 
 theorem lookupNull_ne_ok (env : Env) (n : String) (v : Val Rat) : env.lookupNull n ≠ .ok v := by
   unfold Env.lookupNull
-  cases env.find n with
-  | none => simp
-  | some d =>
-    dsimp only
-    split <;> simp
+  cases env.find n <;> simp
 
 /-- a constant sub-expression (evaluated without looking at any variable) has the same value in the
 interpreter -/
@@ -1084,7 +1065,6 @@ theorem powC_good {env : Env} {a b : CE} {x y z : Rat} {vb : Except Err (Val Rat
   unfold powC at hc
   split at hc
   · cases hc
-  · cases hc
   · injection hc with hc; subst hc; exact hpow
   next _ e =>
     have hey : e = y := by
@@ -1114,7 +1094,7 @@ theorem powC_good {env : Env} {a b : CE} {x y z : Rat} {vb : Except Err (Val Rat
             injection hz with hz; subst hz
             rw [hzero]
             simp only [Int.toNat_zero, Rat.pow_zero]
-            exact ⟨can_par_can can_lit1, Agree.par (agree_lit1 env)⟩
+            exact ⟨can_par_can can_lit10, Agree.par (agree_lit10 env)⟩
           next hnz =>
             injection hc with hc; subst hc
             rw [if_neg (by omega)] at hz
